@@ -147,6 +147,11 @@ class _Canon(ast.NodeTransformer):
         dz = self._dict_zip(n)
         if dz is not None:
             return dz
+        # dict((k, v) for .. in ..) / dict([(k, v) for ..])  ->  {k: v for .. in ..}
+        if isinstance(n.func, ast.Name) and n.func.id == "dict" and len(n.args) == 1 and not n.keywords and isinstance(n.args[0], (ast.GeneratorExp, ast.ListComp)) \
+                and isinstance(n.args[0].elt, (ast.Tuple, ast.List)) and len(n.args[0].elt.elts) == 2 and not any(isinstance(e, ast.Starred) for e in n.args[0].elt.elts):
+            g = n.args[0]
+            return ast.fix_missing_locations(ast.copy_location(ast.DictComp(key=g.elt.elts[0], value=g.elt.elts[1], generators=g.generators), n))
         if isinstance(n.func, ast.Name) and n.func.id == "zip" and len(n.args) == 2 and not n.keywords and not any(isinstance(a, ast.Starred) for a in n.args):
             c, x = n.args
             new = None
@@ -421,8 +426,19 @@ class _Canon(ast.NodeTransformer):
             out.append(ast.fix_missing_locations(a))
         return out
 
+    @staticmethod
+    def _setattr_store(st):
+        """`setattr(x, "name", v)` written as a statement (literal identifier) is the attribute store `x.name = v`"""
+        if isinstance(st, ast.Expr) and isinstance(st.value, ast.Call) and isinstance(st.value.func, ast.Name) and st.value.func.id == "setattr" and len(st.value.args) == 3 \
+                and not st.value.keywords and isinstance(st.value.args[1], ast.Constant) and isinstance(st.value.args[1].value, str) and st.value.args[1].value.isidentifier() \
+                and not any(isinstance(a, ast.Starred) for a in st.value.args):
+            c = st.value
+            a = ast.Assign(targets=[ast.Attribute(value=c.args[0], attr=c.args[1].value, ctx=ast.Store())], value=c.args[2])
+            return [ast.fix_missing_locations(ast.copy_location(a, st))]
+        return None
+
     def _fold_loops(self, body):
-        body = [y for x in body for y in (self._update_stores(x) or [x])]
+        body = [y for x in body for y in (self._update_stores(x) or self._setattr_store(x) or [x])]
         out = []
         i = 0
         while i < len(body):
